@@ -108,6 +108,7 @@ package storage
 //@   ensures [present] HasTx(*txn, hash) && err == nil ==> result0 != nil && fresh(result0) && allocated(result0)
 //@   ensures [stored] err == nil && result0 != nil ==> StoredTxOK(result0)
 //@   ensures [errors] err != nil ==> badger.iofail(err) || !TxValWf(badger.kvget(*txn, TK(hash)))
+//@   ensures [c11-extra] err == nil && result0 != nil ==> seq(result0.Extra) == TxExtraOf(badger.kvget(*txn, TK(hash)))   -- C11: decoding is a function of the stored bytes (TxExtraOf: zz_contracts_c11_verif.go)
 
 //@ -- ═════════ badger_transaction.go: finalizeTransaction ═════════
 //@ spec SnapOK(snap *common.SnapshotWithTopologicalOrder) bool = snap != nil && snap.Snapshot != nil && snap.Version == common.SnapshotVersionCommonEncoding
